@@ -114,6 +114,10 @@ func (fr *Frame) rd(st *State, comp, srt string, ref Term) Term {
 	switch cls {
 	case rcOld:
 		a := fr.ctx.get(st, comp, srt)
+		// syntactic read-over-write: the row just written for this very reference
+		if info, ok := fr.v.storeInfo[a]; ok && info.ref == ref {
+			return info.row
+		}
 		t := sel(a, ref)
 		if a == sym(comp+"@0") {
 			fr.v.entryReads[t] = true
@@ -154,7 +158,9 @@ func (fr *Frame) wr(st *State, comp, srt string, ref Term, row Term) *State {
 	case rcOld:
 		fr.touch(comp, srt)
 		a := fr.ctx.get(st, comp, srt)
-		return st.with(comp, fr.nameTerm(store(a, ref, row), comp, srt))
+		nt := fr.nameTerm(store(a, ref, row), comp, srt)
+		fr.v.storeInfo[nt] = storeRec{base: a, ref: ref, row: row}
+		return st.with(comp, nt)
 	case rcFresh:
 		fr.touch("N|"+comp, srt)
 		a := fr.ctx.get(st, "N|"+comp, srt)
